@@ -492,6 +492,70 @@ fn value_sweep(rep: &Report) -> u64 {
     cases
 }
 
+/// WITH queries (`WithClause::query`, `<statement>.with(clause)`): the top-level `WithQuery` has entry points of its own.
+/// Every combination of 1..2 CTEs x column list x materialisation x SEARCH / CYCLE x body kind (SELECT, INSERT .. SELECT,
+/// UPDATE, DELETE) goes through the same entry-point and substitution checks as the plain statements.
+fn with_query_family(rep: &Report) -> u64 {
+    let mut n = 0u64;
+    for n_ctes in 1..=2usize {
+        for cols in [false, true] {
+            for mat in [None, Some(true), Some(false)] {
+                for rec in 0..4u32 {
+                    for body in ["select", "insert", "update", "delete"] {
+                        let (search, cycle) = (rec & 1 != 0, rec & 2 != 0);
+                        if (search || cycle) && n_ctes != 1 {
+                            continue; // a recursive WITH clause takes exactly one CTE
+                        }
+                        let mk = || {
+                            let mut w = WithClause::new();
+                            for i in 0..n_ctes {
+                                let mut c = CommonTableExpression::new();
+                                c.query(Query::select().column(a("id")).from(a("t1")).and_where(Expr::col(a("id")).gt(i as i32 + 10)).and_where(Expr::col(a("s")).ne("it's")).to_owned()).table_name(a(&format!("c{i}")));
+                                if cols {
+                                    c.column(a("k"));
+                                }
+                                if let Some(m) = mat {
+                                    c.materialized(m);
+                                }
+                                w.cte(c);
+                            }
+                            if search || cycle {
+                                w.recursive(true);
+                            }
+                            if search {
+                                w.search(Search::new_from_order_and_expr(SearchOrder::BREADTH, SelectExpr { expr: Expr::col(a("k")).into(), alias: Some(a("ord").into_iden()), window: None }));
+                            }
+                            if cycle {
+                                w.cycle(Cycle::new_from_expr_set_using(Expr::col(a("k")), a("looped"), a("path")));
+                            }
+                            let sel = Query::select().column(a("k")).from(a("c0")).and_where(Expr::col(a("k")).lt(99)).to_owned();
+                            match body {
+                                "select" => w.query(sel),
+                                "insert" => Query::insert().into_table(a("t1")).columns([a("a")]).select_from(sel).unwrap().to_owned().with(w),
+                                "update" => Query::update().table(a("t1")).value(a("a"), 5).and_where(Expr::col(a("id")).in_subquery(sel)).to_owned().with(w),
+                                _ => Query::delete().from_table(a("t1")).and_where(Expr::col(a("id")).in_subquery(sel)).to_owned().with(w),
+                            }
+                        };
+                        let Ok(q) = catch(mk) else { continue };
+                        for d in DIALECTS {
+                            n += 1;
+                            for fail in entry_all(&q, d) {
+                                rep.raw_failures.inc();
+                                rep.violation(Violation {
+                                    key: format!("with-query|{}|{}|{body}{}{}", d.name(), fail.sig, if search { ";search" } else { "" }, if cycle { ";cycle" } else { "" }),
+                                    what: format!("WITH query ({n_ctes} CTEs, columns={cols}, materialized={mat:?}, search={search}, cycle={cycle}, body {body}): {}", fail.detail),
+                                    case: json!({"with_query": body, "dialect": d.name()}),
+                                });
+                            }
+                        }
+                    }
+                }
+            }
+        }
+    }
+    n
+}
+
 pub fn run(rep: &Arc<Report>) {
     let (ds, dd) = if rep.thorough() { (4, 5) } else { (3, 4) };
     let m = SelModel { name: "select", menu: select_menu(rep.thorough(), false), checks: vec![Box::new(check_select)], sqlite_only: false };
@@ -509,6 +573,8 @@ pub fn run(rep: &Arc<Report>) {
         exhaustive &= s2.exhaustive;
     }
     let sweep = value_sweep(rep);
+    let wq = with_query_family(rep);
+    rep.set("with_query_cases", json!(wq));
     rep.set("states", json!(states + sweep));
     rep.set("transitions", json!(transitions + sweep));
     rep.set("max_depth", json!({"select": ds, "dml": dd}));
@@ -528,6 +594,11 @@ pub fn run(rep: &Arc<Report>) {
 }
 
 pub fn replay(case: &serde_json::Value) -> Option<String> {
+    if case.get("with_query").is_some() {
+        let rep = Arc::new(Report::new("C02", "quick"));
+        with_query_family(&rep);
+        return rep.find_violation(&format!("with-query|{}|", case["dialect"].as_str().unwrap_or("")));
+    }
     if case.get("sweep").is_some() {
         let rep = Arc::new(Report::new("C02", "quick"));
         value_sweep(&rep);
